@@ -61,6 +61,19 @@ def cases(chk):
     for n in (0, 1, 15, 16, 17, 31, 32, 33, 48, 64):
         for kind in KINDS:
             yield "wrong", {"len": n, "kind": kind, "key": keys[0], "other": keys[1], "seed": n}
+    # keys are 32 arbitrary bytes: every byte value at the first and at the last position (a key "tidied up" like text — stripped, decoded,
+    # NUL-terminated — shows only for particular edge bytes), all-zero / all-0xff keys, and a neighbour key that differs only in that byte
+    for b in range(256):
+        body = bytes(r.randrange(1, 255) for _ in range(30))
+        for pos, key in (("first", bytes([b]) + body + b"\x5a"), ("last", b"\xa5" + body + bytes([b]))):
+            if chk.quick() and pos == "first" and b % 2:
+                continue
+            other = bytearray(key)
+            other[0 if pos == "first" else 31] ^= 0x2a
+            yield "roundtrip", {"len": 18 + b % 5, "kind": KINDS[b % len(KINDS)], "key": key.hex(), "seed": b, "edge": pos}
+            yield "wrong", {"len": 18, "kind": KINDS[b % len(KINDS)], "key": key.hex(), "other": bytes(other).hex(), "seed": b}
+    for key in (bytes(32), b"\xff" * 32, b" " * 32, b"\n" * 31 + b"x"):
+        yield "roundtrip", {"len": 20, "kind": "image", "key": key.hex(), "seed": 1, "edge": "uniform"}
     for i in range(chk.scale(120, 2000)):
         nblocks = r.choice([1, 1, 2, 3])
         last = [r.randrange(256) for _ in range(16)]
